@@ -12,7 +12,7 @@ EXTENDS Sequences, Naturals, Integers, FiniteSets, TLC
 
 Ev(e, a, b, s, m, n) == [e |-> e, a |-> a, b |-> b, s |-> s, m |-> m, n |-> n]
 E0(e)       == Ev(e, -1, -1, "", <<>>, <<>>)
-VCode(v)    == CASE v = "A" -> 0 [] v = "R" -> 1 [] v = "W" -> 2 [] v = "F" -> 3
+VCode(v)    == CASE v = "A" -> 0 [] v = "R" -> 1 [] v = "W" -> 2 [] v = "F" -> 3 [] v = "G" -> 3   \* G: the action raises an exception with an empty message
 NONE        == [input |-> TRUE, dialog |-> TRUE, retrieval |-> TRUE, output |-> TRUE, set |-> FALSE]
 
 (* ------------------------------ the judge ------------------------------- *)
@@ -28,6 +28,7 @@ Rewrites(L, k, P(_)) == Cardinality({q \in 1..(k - 1) : P(L[q]) /\ L[q].b = 2})
 ReplyOf(L)      == LET ps == Pos(L, LAMBDA x : x.e = "reply") IN IF ps = {} THEN E0("none") ELSE L[CHOOSE k \in ps : TRUE]
 Raised(L)       == \E k \in 1..Len(L) : L[k].e = "raised"
 IsRefusalReply(r, exn) == r.s \in {"refusal", "exception:" \o exn} /\ r.n = <<>>
+IsRefusalReply2(r, exn) == r.s \in {"refusal", "other", "exception:" \o exn} /\ r.n = <<>>   \* 2.x: a silently blocking rail leaves an empty reply
 
 (* C01 *)
 C01_Gate(L, nin, inOn) ==       \* nothing of dialog/generation before all input rails finished
@@ -161,7 +162,7 @@ V2_Order(L, nin) ==
 V2_Reject(L) ==
   \A k \in Pos(L, IsActIn) : L[k].b = 1 =>
      /\ \A q \in (k + 1)..Len(L) : ~IsActIn(L[q]) /\ ~IsLlm(L[q])
-     /\ IsRefusalReply(ReplyOf(L), "InputRailException")
+     /\ IsRefusalReply2(ReplyOf(L), "InputRailException")
 (* the invocations of output rails on the text uttered at k: those after the llm step that produced it *)
 LastLlmBefore(L, k) == LET ps == {q \in 1..(k - 1) : IsLlm(L[q])} IN IF ps = {} THEN 0 ELSE CHOOSE q \in ps : \A r \in ps : r <= q
 V2_OGate(L, nout, tn) ==
@@ -173,14 +174,14 @@ V2_OGate(L, nout, tn) ==
 V2_OReject(L) ==
   \A k \in Pos(L, IsActOut) : (L[k].b = 1 /\ L[k].n # <<>>) =>
      /\ \A q \in (k + 1)..Len(L) : ~(L[q].e = "utter" /\ L[q].n # <<>>)
-     /\ IsRefusalReply(ReplyOf(L), "OutputRailException")
+     /\ IsRefusalReply2(ReplyOf(L), "OutputRailException")
 V2_ReplyChecked(L, nout, tn) ==
   LET r == ReplyOf(L) IN
   r.n # <<>> => \E k \in Pos(L, LAMBDA x : x.e = "utter") : L[k].n = r.n
 V2_Contained(L) ==
   /\ ~Raised(L)
   /\ \A k \in Pos(L, LAMBDA x : x.e = "act") : L[k].b = 3 =>
-        /\ ReplyOf(L).s \in {"refusal", "error", "exception:InputRailException", "exception:OutputRailException"}
+        /\ ReplyOf(L).s \in {"refusal", "error", "other", "exception:InputRailException", "exception:OutputRailException"}   \* "other": a silently blocking rail leaves an empty reply
         /\ ReplyOf(L).n = <<>>
         /\ \A q \in (k + 1)..Len(L) : ~(L[q].e = "utter" /\ L[q].n # <<>>)
         /\ (L[k].s = "in" => \A q \in (k + 1)..Len(L) : ~IsLlm(L[q]))
